@@ -46,6 +46,21 @@ def build_case(R, tier, min_frags=1, classes=None, kinds=('$', '><')):
 
 
 def gen(R, tier):
+    if R.chance(0.15):
+        from .. import resgen
+        c = resgen.gen_multicut_string(R, tier)
+        if c is None:
+            return None
+        m = molgen.Mol.from_json(c['model'])
+        single, _ = molgen.render_fragment(R, m, list(range(len(m.atoms))), {}, molgen.style_draw(R))
+        blocks = c['input'].split('.', 1)
+        import re
+        names = re.findall(r'\[#(\w+)\]', blocks[0])
+        from .. import gram
+        nodes_, edges_ = gram.interpret(gram.parse(blocks[0]))
+        return dict(input=c['input'], model=c['model'], nfr=2, features=c['features'], uncut='{[#M]}.{#M=%s}' % single,
+                    frag_block=blocks[1], base_nodes=[[n, nodes_[n][0]] for n in reversed(range(len(nodes_)))],
+                    base_edges=[[a, b, o] for (a, b), o in edges_.items()])
     m, s, x = build_case(R, tier)
     if m is None:
         return None
